@@ -341,7 +341,7 @@ func (e *Engine) runPass(vc *VC) {
 	// package invariants and requires
 	for _, cl := range con.Clauses {
 		if cl.Kind == "requires" {
-			vc.assume(vc.evalBool(cl.Expr, env))
+			vc.assume(vc.evalHyp(cl.Expr, env, tTrue))
 		}
 	}
 	for _, u := range con.Uses {
@@ -353,7 +353,7 @@ func (e *Engine) runPass(vc *VC) {
 	for _, inv := range vc.eng.invariantsOf(con) {
 		ienv := *env
 		ienv.pkg = vc.eng.typesPkg[inv.Pkg]
-		vc.assume(vc.evalBool(inv.Expr, &ienv))
+		vc.assume(vc.evalHyp(inv.Expr, &ienv, tTrue))
 		vc.assumes["package invariant "+inv.Name+" assumed at entry (established by package init, preserved by every function under contract)"] = true
 	}
 	for _, cl := range con.Clauses {
@@ -400,13 +400,13 @@ func (e *Engine) runPass(vc *VC) {
 			if cl.Tag != "" {
 				tag = cl.Tag
 			}
-			o := vc.oblige("post", fmt.Sprintf("ret%d.post.%s", k+1, tag), r.guard, vc.evalBool(cl.Expr, penv))
+			o := vc.oblige("post", fmt.Sprintf("ret%d.post.%s", k+1, tag), r.guard, vc.evalGoal(cl.Expr, penv))
 			_ = o
 		}
 		for _, inv := range vc.eng.invariantsOf(con) {
 			ienv := *penv
 			ienv.pkg = vc.eng.typesPkg[inv.Pkg]
-			vc.oblige("post", fmt.Sprintf("ret%d.inv.%s", k+1, inv.Name), r.guard, vc.evalBool(inv.Expr, &ienv))
+			vc.oblige("post", fmt.Sprintf("ret%d.inv.%s", k+1, inv.Name), r.guard, vc.evalGoal(inv.Expr, &ienv))
 		}
 		if !vc.lenient() {
 			for j, cl := range panicsCl {
@@ -564,6 +564,24 @@ func (vc *VC) buildQuery(o *Obligation) string {
 	sb.WriteString("; " + o.Name + "\n")
 	sb.WriteString("(set-option :produce-models true)\n")
 	sb.WriteString("(set-logic ALL)\n")
+	// built-in sorts: only the sections this VC mentions (unused quantified axioms make the
+	// solvers' instantiation heuristics unstable)
+	var body strings.Builder
+	for _, d := range vc.decls {
+		body.WriteString(d)
+		body.WriteString("\n")
+	}
+	nf := o.NFacts
+	if nf > len(vc.facts) {
+		nf = len(vc.facts)
+	}
+	for _, f := range vc.facts[:nf] {
+		body.WriteString(f)
+		body.WriteString("\n")
+	}
+	body.WriteString(o.Goal)
+	body.WriteString(vc.eng.preludeText(vc.preludeUsed))
+	basePrelude := neededBase(body.String())
 	if o.Expect == "sat" {
 		// reachability/vacuity covers: quantified axioms are dropped (they only constrain
 		// uninterpreted spec functions and are satisfiable by the intended model), which keeps
@@ -591,6 +609,9 @@ func (vc *VC) buildQuery(o *Obligation) string {
 			continue
 		}
 		sb.WriteString("(assert " + f + ")\n")
+	}
+	for _, h := range o.Hints {
+		sb.WriteString("(assert " + h + ")\n")
 	}
 	sb.WriteString("(assert (not " + o.Goal + "))\n")
 	sb.WriteString("(check-sat)\n")
@@ -682,4 +703,81 @@ func (vc *VC) lemmaAxiom(con *Contract) T {
 		body = "(! " + body + " :pattern (" + strings.Join(pats, " ") + "))"
 	}
 	return "(forall (" + strings.Join(binders, " ") + ") " + body + ")"
+}
+
+var baseSections [][2]string
+
+func init() {
+	cur := ""
+	key := ""
+	flush := func() {
+		if cur != "" {
+			baseSections = append(baseSections, [2]string{key, cur})
+		}
+		cur = ""
+	}
+	for _, ln := range strings.Split(basePrelude, "\n") {
+		switch {
+		case strings.HasPrefix(ln, "(declare-datatypes ((Slice"):
+			flush()
+			key = "Slice|s_ref|s_len|s_off|s_cap|mk_slice"
+		case strings.HasPrefix(ln, "(declare-datatypes ((Iface"):
+			flush()
+			key = "Iface|i_type|i_val|mk_iface"
+		case strings.HasPrefix(ln, "(declare-sort Str"):
+			flush()
+			key = "Str|str_"
+		case strings.HasPrefix(ln, "(declare-sort Bytes"):
+			flush()
+			key = "Bytes|bytes_"
+		case strings.HasPrefix(ln, "(declare-sort Coins"):
+			flush()
+			key = "Coins|coins_"
+		case strings.HasPrefix(ln, "(declare-sort Ctx"):
+			flush()
+			key = "Ctx|ctx_"
+		case strings.HasPrefix(ln, "(define-fun tdiv"):
+			flush()
+			key = ""
+		}
+		cur += ln + "\n"
+	}
+	flush()
+}
+
+func neededBase(text string) string {
+	need := map[int]bool{}
+	has := func(keys string) bool {
+		if keys == "" {
+			return true
+		}
+		for _, k := range strings.Split(keys, "|") {
+			if strings.Contains(text, k) {
+				return true
+			}
+		}
+		return false
+	}
+	for i, sec := range baseSections {
+		if has(sec[0]) {
+			need[i] = true
+		}
+	}
+	// Coins and Ctx sections mention Str
+	for i, sec := range baseSections {
+		if need[i] && (strings.HasPrefix(sec[0], "Coins") || strings.HasPrefix(sec[0], "Ctx")) {
+			for j, s2 := range baseSections {
+				if strings.HasPrefix(s2[0], "Str") {
+					need[j] = true
+				}
+			}
+		}
+	}
+	var sb strings.Builder
+	for i, sec := range baseSections {
+		if need[i] {
+			sb.WriteString(sec[1])
+		}
+	}
+	return sb.String()
 }
